@@ -38,6 +38,27 @@ theorem c10s_device_silent (x : Ctx) (F : Facts) (hF : F.ok = true) (s : St) (hs
   · rw [h]; exact hq
   · rw [← h]; exact world_drop_no_subs x F hF s hs k c hk b hb
 
+/-- … nor does a data change by the local application (`SetData` / `UpdateData`: the subscribers of the feature are notified)
+    write anything to the removed connection. -/
+theorem c10s_local_change_silent (x : Ctx) (F : Facts) (hF : F.ok = true) (s : St) (hs : Inv s) (k : Nat) (c : Conn)
+    (hk : forSki s k = some c) (a : Addr) (fn v : Nat) :
+    ∀ o ∈ (localSet (world x (drop F s k).1) a fn v).2, o.1 ≠ k := by
+  have hn : ∀ o ∈ notifsAt (world x (drop F s k).1) a fn v, o.1 ≠ k := by
+    intro o ho
+    unfold notifsAt at ho
+    obtain ⟨b, hb, rfl⟩ := List.mem_map.1 ho
+    exact world_drop_no_subs x F hF s hs k c hk b (List.mem_filter.1 hb).1
+  intro o ho
+  unfold localSet at ho
+  cases hl : locF (world x (drop F s k).1) a with
+  | none => rw [hl] at ho; simp at ho
+  | some lf =>
+    rw [hl] at ho
+    dsimp only at ho
+    split at ho
+    · exact hn o ho
+    · simp at ho
+
 /-- Entity `ent` of connection `k` announced as removed (any `ent`): every datagram of every other connection gets the
     same outputs on every connection other than `k`'s. -/
 theorem c10s_entity_served (x : Ctx) (F : Facts) (hF : F.ok = true) (s : St) (hs : Inv s) (k : Nat) (ent : List Nat)
@@ -118,6 +139,10 @@ example : Inv w0 ∧ Facts.head.ok = true ∧
     (processCmd (world x0 (drop Facts.head w0 1).1) 2 rd).2 = [(2, .reply (some 6) 7 ([1], 1) ([1], 1) 0 (some 0))] ∧
     (processCmd (world x0 w0) 2 rd).2 = [(2, .reply (some 6) 7 ([1], 1) ([1], 1) 0 (some 0))] :=
   ⟨inv_w0, by decide, by decide, by decide, by decide, by decide⟩
+
+/-- a local data change after the teardown notifies connection 2 only (before: both) -/
+example : (localSet (world x0 (drop Facts.head w0 1).1) ([1], 1) 7 9).2 = [(2, .notify 7 ([1], 1) ([1], 1) 9)] ∧
+    (localSet (world x0 w0) ([1], 1) 7 9).2 = [(1, .notify 7 ([1], 1) ([1], 1) 9), (2, .notify 7 ([1], 1) ([1], 1) 9)] := by decide
 
 /-- the entity removal: [1] of connection 1 removed — connection 2's write from ITS [1]/1 is still accepted, and it no
     longer notifies connection 1 (whose subscription went with the entity) -/
